@@ -21,6 +21,24 @@ MODEL = os.path.join(ROOT, "model")
 HARNESS = os.path.join(ROOT, "harness")
 WORK = os.path.join(ROOT, "work")
 REPO = "/repo"
+# Evaluation of seeded changes only (tools/seed_eval.py): run the same checks against a scratch worktree of /repo
+# instead of /repo itself, with a private copy of the harness crate and private evidence / replay directories.
+# Never set by a command registered in MANIFEST.json.
+OVERRIDE = os.environ.get("VERIF_REPO_OVERRIDE")
+if OVERRIDE:
+    REPO = OVERRIDE
+    _src = HARNESS
+    HARNESS = os.path.join(WORK, "harness-override")
+    os.makedirs(os.path.join(HARNESS, "src"), exist_ok=True)
+    for _f in os.listdir(os.path.join(_src, "src")):
+        _a = open(os.path.join(_src, "src", _f), "rb").read()
+        _b = os.path.join(HARNESS, "src", _f)
+        if not os.path.exists(_b) or open(_b, "rb").read() != _a:
+            open(_b, "wb").write(_a)
+    _t = open(os.path.join(_src, "Cargo.toml")).read().replace('"/repo/', '"%s/' % OVERRIDE.rstrip("/"))
+    _b = os.path.join(HARNESS, "Cargo.toml")
+    if not os.path.exists(_b) or open(_b).read() != _t:
+        open(_b, "w").write(_t)
 NCPU = 16
 
 TRUSTED_BASE = [
@@ -418,7 +436,7 @@ def load_known():
 
 
 def write_replay(prop_id, obj):
-    d = os.path.join(ROOT, "replays")
+    d = os.path.join(WORK, "override-replays") if OVERRIDE else os.path.join(ROOT, "replays")
     os.makedirs(d, exist_ok=True)
     h = hashlib.sha1(json.dumps(obj, sort_keys=True, default=str).encode()).hexdigest()[:10]
     path = os.path.join(d, "%s-%s.json" % (prop_id, h))
@@ -428,7 +446,7 @@ def write_replay(prop_id, obj):
 
 
 def write_evidence(prop_id, ev):
-    d = os.path.join(ROOT, "evidence")
+    d = os.path.join(WORK, "override-evidence") if OVERRIDE else os.path.join(ROOT, "evidence")
     os.makedirs(d, exist_ok=True)
     with open(os.path.join(d, prop_id + ".json"), "w") as f:
         json.dump(ev, f, indent=1, default=str)
